@@ -5,24 +5,33 @@
 set -u
 WT=$1; M=$2; ID=$3
 cd "$WT" || exit 2
-git checkout -q -- . ; rm -f derive/tests/demo_seed.rs
+LOC=$(python3 -c "import json,sys; m=json.load(open('$M/meta.json')); print(m.get('demo_location') or 'derive/tests/demo_seed.rs')" 2>/dev/null || echo derive/tests/demo_seed.rs)
+CMD=$(python3 -c "import json,sys; m=json.load(open('$M/meta.json')); print(m.get('demo_command') or 'cargo test -p pest_typed_derive --test demo_seed --offline')" 2>/dev/null || echo "cargo test -p pest_typed_derive --test demo_seed --offline")
+LOC=${LOC#$WT/}
+case "$LOC" in /*) echo "RESULT $ID bad-demo-location $LOC"; exit 1;; esac
+git checkout -q -- . ; rm -f "$LOC"
 git apply --check "$M/patch.diff" || { echo "RESULT $ID patch-does-not-apply"; exit 1; }
 git apply "$M/patch.diff"
 cargo test --workspace --no-fail-fast --offline > /tmp/vs_$ID.tests.log 2>&1; T=$?
 FAILED=$(grep -E "^test result" /tmp/vs_$ID.tests.log | awk '{f+=$6} END {print f+0}')
 PASSED=$(grep -E "^test result" /tmp/vs_$ID.tests.log | awk '{s+=$4} END {print s+0}')
-cp "$M/demo.rs" derive/tests/demo_seed.rs
-cargo test -p pest_typed_derive --test demo_seed --offline > /tmp/vs_$ID.demo_with.log 2>&1; DW=$?
-git checkout -q -- main generator derive/src
-cargo test -p pest_typed_derive --test demo_seed --offline > /tmp/vs_$ID.demo_without.log 2>&1; DO=$?
-rm -f derive/tests/demo_seed.rs
-echo "RESULT $ID suite_rc=$T passed=$PASSED failed=$FAILED demo_with_patch_rc=$DW demo_without_patch_rc=$DO"
+mkdir -p "$(dirname "$LOC")"; cp "$M/demo.rs" "$LOC"
+(cd "$WT" && eval "$CMD") > /tmp/vs_$ID.demo_with.log 2>&1; DW=$?
+git checkout -q -- main generator derive
+(cd "$WT" && eval "$CMD") > /tmp/vs_$ID.demo_without.log 2>&1; DO=$?
+rm -f "$LOC"
+echo "RESULT $ID suite_rc=$T passed=$PASSED failed=$FAILED demo_with_patch_rc=$DW demo_without_patch_rc=$DO loc=$LOC"
 if [ $T -eq 0 ] && [ $FAILED -eq 0 ] && [ $DW -ne 0 ] && [ $DO -eq 0 ]; then
   mkdir -p /verif/seeded/$ID
   cp "$M/patch.diff" /verif/seeded/$ID/patch.diff
   cp "$M/demo.rs" /verif/seeded/$ID/demo.rs
   cp "$M/meta.json" /verif/seeded/$ID/agent_meta.json
-  echo "{\"suite_rc\": $T, \"tests_passed\": $PASSED, \"tests_failed\": $FAILED, \"demo_with_patch_rc\": $DW, \"demo_without_patch_rc\": $DO, \"commands\": [\"git apply patch.diff\", \"cargo test --workspace --no-fail-fast --offline\", \"cp demo.rs derive/tests/demo_seed.rs && cargo test -p pest_typed_derive --test demo_seed --offline\"]}" > /verif/seeded/$ID/verified.json
+  python3 - <<PY
+import json
+json.dump({"suite_rc": $T, "tests_passed": $PASSED, "tests_failed": $FAILED, "demo_with_patch_rc": $DW, "demo_without_patch_rc": $DO,
+ "demo_location": "$LOC", "demo_command": """$CMD""",
+ "commands": ["git apply patch.diff", "cargo test --workspace --no-fail-fast --offline", "cp demo.rs $LOC && $CMD"]}, open("/verif/seeded/$ID/verified.json","w"), indent=1)
+PY
   echo "STORED $ID"
 else
   echo "REJECTED $ID"
